@@ -1,5 +1,8 @@
 import Thanos.Common.Parse
 import Thanos.Model.BlockSet
+import Thanos.Model.Labels
+import Thanos.Model.Frames
+import Thanos.Model.StoreSpec
 /-
   Line-protocol driver of the `stores` family (C07 C08 C09 C10 C15).
   One request per line, one answer per line; every line is self-contained.
@@ -9,6 +12,13 @@ import Thanos.Model.BlockSet
         blocks = `res:mint:maxt:keep` joined by `,` (`-` = none), in the order they are added; the id of a
         block is its position.  keep = 1/0 = outcome of matchRelabelLabels on the block.
       -> `ok f=<failed adds> <res:mint:maxt joined by ;> <sorted ids joined by ,>` | `panic`
+
+  C08 / C07 / C10 (names and values are ranks, value 0 = empty; encodings as in harness/cmd/stores/e2e.go)
+    lbl.extend <lset> <ext>   lbl.rm <lset> <names>   lbl.serve <raw> <ext> <without>
+    frm.split <maxBytes> <lset> <payload lengths> <label sizes> <chunk sizes>
+    st.series <kind> <blocks> <mint> <maxt> <matchers> <without> <skip>
+    st.names  <kind> <blocks> <start> <end> <matchers> <without>
+    st.values <kind> <blocks> <start> <end> <matchers> <without> <label>
 -/
 open Thanos Thanos.Parse
 
@@ -43,7 +53,134 @@ def showGetFor (failed : Nat) : Option (List BlockSet.Block) → String
     let ids := showNats "," (sortNats (r.map (·.id)))
     s!"ok f={failed} {seq} {ids}"
 
+/-! ### labels, frames, store specification -/
+
+open Thanos.Labels in
+def parseLabel (s : String) : Option Label :=
+  match (splitChar '.' s).mapM parseNat? with
+  | some [n, v] => some (n, v)
+  | _ => none
+
+def parseLabels (s : String) : Option Labels.Labels := (listOf ',' s).mapM parseLabel
+
+def showLabels (ls : Labels.Labels) : String := joinWith "," (ls.map fun l => s!"{l.1}.{l.2}")
+
+def parseChunk (s : String) : Option StoreSpec.Chunk :=
+  match splitChar '.' s with
+  | [a, b, i] => do
+    let a ← parseInt? a
+    let b ← parseInt? b
+    let i ← parseNat? i
+    pure ⟨a, b, i⟩
+  | _ => none
+
+def parseSeries (s : String) : Option StoreSpec.Series :=
+  match splitChar '^' s with
+  | [l, c] => do
+    let l ← parseLabels l
+    let c ← (listOf ',' c).mapM parseChunk
+    pure ⟨l, c⟩
+  | _ => none
+
+def parseSpecBlock (s : String) : Option StoreSpec.Block :=
+  match splitChar '@' s with
+  | [e, a, b, ss] => do
+    let e ← parseLabels e
+    let a ← parseInt? a
+    let b ← parseInt? b
+    let ss ← (listOf ';' ss).mapM parseSeries
+    pure ⟨e, a, b, ss⟩
+  | _ => none
+
+def parseSpecBlocks (s : String) : Option (List StoreSpec.Block) := (listOf '/' s).mapM parseSpecBlock
+
+/-- `type.name.patternhex.vals`; returns the matcher and whether it is `__name__="…"` (name rank 1, type 0) -/
+def parseMatcher (s : String) : Option (StoreSpec.Matcher × Bool) :=
+  match splitChar '.' s with
+  | [t, n, _, vs] => do
+    let t ← parseNat? t
+    let n ← parseNat? n
+    let vs ← if vs = "_" then some [] else (splitChar '+' vs).mapM parseNat?
+    pure (⟨n, false, vs⟩, t == 0 && n == 1)
+  | _ => none
+
+def parseReq (mint maxt matchers without : String) (skip : Bool) : Option StoreSpec.Req := do
+  let a ← parseInt? mint
+  let b ← parseInt? maxt
+  let ms ← (listOf ',' matchers).mapM parseMatcher
+  let w ← parseNats? ',' without
+  pure ⟨a, b, ms.map (·.1), w, skip, ms.any (·.2)⟩
+
+def kindOf (s : String) : String := (splitChar '+' s).headD ""
+
+def showSeries (skip : Bool) (es : List StoreSpec.Entry) : String :=
+  let c := StoreSpec.canonSeries es
+  joinWith ";" (c.map fun e =>
+    let ids := if skip || e.2.isEmpty then "_" else "+".intercalate (e.2.map toString)
+    s!"{showLabels e.1}={ids}")
+
+def handleSeries (kind blocks mint maxt matchers without skip : String) : String :=
+  match parseSpecBlocks blocks, parseReq mint maxt matchers without (skip == "1") with
+  | some bs, some r =>
+    match kindOf kind, bs with
+    | "tsdb", db :: _ =>
+      match StoreSpec.tsdbSeries db r with
+      | .ok es => "ok " ++ showSeries r.skipChunks es
+      | .invalid => "invalid"
+    | "bkt", _ :: _ => "ok " ++ showSeries r.skipChunks (StoreSpec.bucketSeries bs r)
+    | _, _ => "bad-op"
+  | _, _ => "bad-op"
+
+def handleNames (kind blocks mint maxt matchers without : String) : String :=
+  match parseSpecBlocks blocks, parseReq mint maxt matchers without false with
+  | some bs, some r =>
+    match kindOf kind, bs with
+    | "tsdb", db :: _ => "ok " ++ showNats "," (StoreSpec.canonNats (StoreSpec.tsdbLabelNames db r))
+    | "bkt", _ :: _ => "ok " ++ showNats "," (StoreSpec.canonNats (StoreSpec.bucketLabelNames bs r))
+    | _, _ => "bad-op"
+  | _, _ => "bad-op"
+
+def handleValues (kind blocks mint maxt matchers without label : String) : String :=
+  match parseSpecBlocks blocks, parseReq mint maxt matchers without false, parseNat? label with
+  | some bs, some r, some l =>
+    if l = 0 then "invalid" else
+    match kindOf kind, bs with
+    | "tsdb", db :: _ => "ok " ++ showNats "," (StoreSpec.canonNats (StoreSpec.tsdbLabelValues db r l))
+    | "bkt", _ :: _ => "ok " ++ showNats "," (StoreSpec.canonNats (StoreSpec.bucketLabelValues bs r l))
+    | _, _ => "bad-op"
+  | _, _, _ => "bad-op"
+
+def zipIdx (xs : List Int) : List Frames.Chunk :=
+  let rec go : Nat → List Int → List Frames.Chunk
+    | _, [] => []
+    | i, x :: r => (i, x) :: go (i + 1) r
+  go 0 xs
+
 def handle : List String → String
+  | ["lbl.extend", a, b] =>
+    match parseLabels a, parseLabels b with
+    | some a, some b => showLabels (Labels.extendSorted a b)
+    | _, _ => "bad-op"
+  | ["lbl.rm", a, ns] =>
+    match parseLabels a, parseNats? ',' ns with
+    | some a, some ns => showLabels (Labels.rm ns a)
+    | _, _ => "bad-op"
+  | ["lbl.serve", raw, ext, ns] =>
+    match parseLabels raw, parseLabels ext, parseNats? ',' ns with
+    | some raw, some ext, some ns =>
+      s!"t={showLabels (Labels.serveTSDB ns ext raw)} b={showLabels (Labels.serveBucket ns ext raw)}"
+    | _, _, _ => "bad-op"
+  | ["frm.split", maxBytes, _, _, lsz, csz] =>
+    match parseInt? maxBytes, parseInts? ',' lsz, parseInts? ',' csz with
+    | some m, some lsz, some csz =>
+      joinWith "|" ((Frames.splitFrames m lsz (zipIdx csz)).map fun f => "+".intercalate (f.map fun c => toString c.1))
+    | _, _, _ => "bad-op"
+  | ["st.series", kind, blocks, mint, maxt, matchers, without, skip] =>
+    handleSeries kind blocks mint maxt matchers without skip
+  | ["st.names", kind, blocks, mint, maxt, matchers, without] =>
+    handleNames kind blocks mint maxt matchers without
+  | ["st.values", kind, blocks, mint, maxt, matchers, without, label] =>
+    handleValues kind blocks mint maxt matchers without label
   | ["bs.getfor", blocks, mint, maxt, maxres] =>
     match parseBlocks blocks, parseInt? mint, parseInt? maxt, parseInt? maxres with
     | some bs, some mint, some maxt, some maxres =>
